@@ -126,6 +126,7 @@ func run(c *runner.Ctx) {
 	wideStructs(c)
 	repeatedSetRule(c)
 	untaggedNested(c)
+	nestedRuleReplaced(c)
 	embeddedAndUnknown(c)
 	lateNames(c)
 	samePrintingTypes(c)
